@@ -806,6 +806,10 @@ func (fr *Frame) makeInterface(st *State, v Val, from types.Type) Val {
 	}
 	// box the value in a fresh immutable cell
 	r := vc.newObject(st, "box", nil, vc.p.lay.of(from).Kinds)
+	if vc.boxedType == nil {
+		vc.boxedType = map[string]types.Type{}
+	}
+	vc.boxedType[r] = from
 	v.T = from
 	vc.storeAt(st, r, "0", v)
 	return Val{S: []Term{tid, r, "0"}}
